@@ -47,6 +47,10 @@ class TokCase:
         assert t[j] == "OPT"
         self.ign, self.maxg = t[j + 1], t[j + 2]
         j += 3
+        self.hist = ""
+        if t[j].startswith("H"):
+            self.hist = " " + t[j]
+            j += 1
         assert t[j] == "WOPS"
         n = int(t[j + 1])
         j += 2
@@ -72,7 +76,7 @@ class TokCase:
                 s.append("U " + op[1])
             else:
                 s.append(op[0])
-        s.append(f"OPT {self.ign} {self.maxg} WOPS {len(self.wops)}")
+        s.append(f"OPT {self.ign} {self.maxg}{self.hist} WOPS {len(self.wops)}")
         for op in self.wops:
             s.append(" ".join(op))
         return " ".join(s)
